@@ -66,6 +66,33 @@ func obsSatisfies(e string, allowed []string) (o Obs) {
 	return
 }
 
+// reuseBuf is ONE caller-owned backing array used for many consecutive calls, its contents overwritten in place
+// between calls (a caller that recycles its slice): a result remembered by slice identity would be stale.
+var reuseBuf = make([]string, 12)
+
+func obsSatisfiesReuse(e string, allowed []string) (o Obs) {
+	if len(allowed) == 0 || len(allowed) > len(reuseBuf)-1 {
+		return obsSatisfies(e, allowed)
+	}
+	o.Fn = "Satisfies"
+	buf := reuseBuf[:len(allowed)]
+	copy(buf, allowed)
+	reuseBuf[len(allowed)] = "\x00sentinel"
+	defer func() {
+		if r := recover(); r != nil {
+			o.Panic = fmt.Sprint(r)
+		}
+		o.Mutated = !sameStrings(buf, allowed) || reuseBuf[len(allowed)] != "\x00sentinel"
+	}()
+	sat, err := spdxexp.Satisfies(e, buf)
+	o.Sat = sat
+	if err != nil {
+		o.Err = true
+		o.ErrText = err.Error()
+	}
+	return
+}
+
 func obsValidate(list []string) (o Obs) {
 	o.Fn = "ValidateLicenses"
 	arg, backing, pristine := guarded(list)
